@@ -868,3 +868,39 @@ def mutate_nd(rng, spec):
     if x.ndim >= 2:
         return ["nd", dtype, base, ops + [["T"]]], "nd-T"
     return ["list", [["int", int(v)] if dtype[1] in "iu" else ["str", str(v)] for v in x.ravel().tolist()]], "nd->list"
+
+
+# ----------------------------------------------------------------------------------------------
+# functions with long descriptive names (C13 / C14)
+# ----------------------------------------------------------------------------------------------
+# The prefixes of the keys they produce add up to more than the length limit of `default_fused_keys_renamer`, so the
+# name of the fused task is cut and only its digest suffix tells two pipelines over different data apart.
+# (`funcname` keeps 50 characters: the four names differ within them.)
+_LONG_NAMES = [
+    "normalise_the_incoming_customer_record_fields_and_strip_the_whitespace_from_every_column",
+    "compute_the_weighted_moving_average_of_the_sensor_readings_over_the_sliding_window",
+    "convert_the_measured_temperature_from_fahrenheit_to_celsius_and_round_to_two_digits",
+    "discard_the_records_whose_quality_flag_marks_them_as_invalid_or_incomplete_samples",
+]
+
+
+def _mk_long_map(i):
+    k = i + 2
+
+    def f(x):
+        return x * k + i
+    f.__name__ = f.__qualname__ = _LONG_NAMES[i]
+    return f
+
+
+def _mk_long_pred(i):
+    def p(x):
+        return (x + i) % 3 != 0
+    p.__name__ = p.__qualname__ = "keep_" + _LONG_NAMES[i]
+    return p
+
+
+LONG_MAPS = [_mk_long_map(i) for i in range(len(_LONG_NAMES))]
+LONG_PREDS = [_mk_long_pred(i) for i in range(len(_LONG_NAMES))]
+for _f in LONG_MAPS + LONG_PREDS:
+    globals()[_f.__name__] = _f      # importable by name: pickled by reference, deterministic token
